@@ -319,6 +319,10 @@ func checkC11(p *core.Program, r *core.Report) {
 
 // derivesFrom: v is computed from root through calls (receiver/args), field
 // loads, extracts, conversions, phis (bounded depth).
+// derivOnStack: values currently being explored by derivesFrom (a value that is reached again below itself - a
+// loop-carried phi - contributes nothing new; without the cut the search is exponential in the depth bound).
+var derivOnStack = map[ssa.Value]bool{}
+
 func derivesFrom(v, root ssa.Value, depth int) bool {
 	v = core.Canon(v)
 	if v == root || v == core.Canon(root) {
@@ -327,6 +331,11 @@ func derivesFrom(v, root ssa.Value, depth int) bool {
 	if depth <= 0 {
 		return false
 	}
+	if derivOnStack[v] {
+		return false
+	}
+	derivOnStack[v] = true
+	defer delete(derivOnStack, v)
 	switch x := v.(type) {
 	case *ssa.Call:
 		if derivesThroughHelper(x, 0, root, depth-1) {
